@@ -1,5 +1,6 @@
 import RsModel.Model.Composite
 import RsModel.Lemmas.AttrTree
+import RsModel.Lemmas.ReplaceKeeps
 /-!
 # C06 — composites preserve what their children attribute
 (the index-translation tables every composite relies on; attribution itself is tied by correspondence)
@@ -70,5 +71,26 @@ theorem c06_concat_tree (cons : Text → Option Text) (c : Bool) (cs : SrcList) 
 example : SrcList.WD (fun n => if n = [97] then some [120, 10, 121] else some [122]) true
     (.cons (.orig [120, 10, 121] [97]) (.cons (.rawStr [59]) (.cons (.orig [122] [98]) .nil))) := by
   simp [SrcList.WD, Src.WD]
+
+
+/-! ## ReplaceSource: what survives of the inner attribution (PARTIAL: index level; file/line/column rules, not yet names) -/
+
+/-- per inner chunk: everything delivered while the inner chunk `(chunk, m)` is processed — pieces of its text and replacement
+content spliced into it — is unmapped if `m` is unmapped and otherwise keeps `m`'s source index and original line; its column is
+never before `m`'s column and equals it when no content is recorded for that source (the column advances only where the recorded
+original content equals the preceding text) -/
+theorem c06_replace_chunk (st : RSt) (chunk : Text) (m : Mapping) :
+    ∀ t mm, Ev.chunk t mm ∈ (rOnChunk st chunk m).2 →
+      (m.orig = none → mm.orig = none) ∧ ∀ y, mm.orig = some y → ∃ x, m.orig = some x ∧ y.src = x.src ∧ y.line = x.line ∧ x.col ≤ y.col
+        ∧ ((∀ c, st.contents[x.src]? ≠ some (some c)) → y.col = x.col) :=
+  (rOnChunk_keeps st chunk m).1
+
+/-- whole stream, any inner stream, any sorted replacement list: every delivered chunk is unmapped (trailing replacement content,
+or text of an unmapped inner chunk) or keeps source index and original line of an inner chunk with a column not before it; the
+sources are announced exactly as the inner stream announces them, so the index means the same file with the same content -/
+theorem c06_replace_stream (sorted : List Repl) (inner : SResult) :
+    (∀ t' mm, Ev.chunk t' mm ∈ (replaceStream sorted inner).evs → mm.orig = none ∨ ∃ t m, Ev.chunk t m ∈ inner.evs ∧ KeepsW m.orig mm.orig)
+    ∧ ∀ i s c, Ev.source i s c ∈ (replaceStream sorted inner).evs ↔ Ev.source i s c ∈ inner.evs :=
+  replaceStream_keeps sorted inner
 
 end Rs
